@@ -13,6 +13,9 @@ use std::sync::{Arc, Condvar, Mutex};
 use std::time::{Duration, Instant};
 use verif_harness::*;
 
+/// known-finding class: decided by the input alone (the weight type)
+const KF_UNSIGNED: &str = "arcswap-unsigned-weights";
+
 // ------------------------------------------------------------------ graph
 
 /// Adjacency rows in arbitrary order, parallel edges and self loops allowed.
@@ -290,6 +293,8 @@ struct Case {
     policy: Policy,
     sseed: u64,
     csr: bool,
+    /// run with `u64` vertex weights (known-finding stream, off unless enabled)
+    unsigned: bool,
 }
 
 fn gen_graph(r: &mut Rng) -> (String, AdjGraph) {
@@ -450,7 +455,7 @@ fn gen_case(r: &mut Rng) -> Case {
         _ => Policy::Bursts,
     };
     let csr = g.is_csr() && r.chance(1, 2);
-    Case { family, g, vw, p0, threads, mi, policy, sseed: r.next(), csr }
+    Case { family, g, vw, p0, threads, mi, policy, sseed: r.next(), csr, unsigned: false }
 }
 
 /// A small two- or three-worker input on which the uninterrupted schedule moves vertices:
@@ -494,6 +499,7 @@ fn gen_sweep_base(seed: u64) -> (Case, usize) {
             policy: Policy::Preempt(vec![]),
             sseed: 1,
             csr: false,
+            unsigned: false,
         };
         let o = run_case(&c);
         let good = matches!(&o.res, Guarded::Done((_, md)) if md.move_count > 0) && o.choices <= 140;
@@ -541,10 +547,13 @@ fn run_case(c: &Case) -> Outcome {
         let sh = sh.clone();
         std::thread::spawn(move || controller(sh))
     };
-    let (g, vw, p0, mi, csr) = (c.g.clone(), c.vw.clone(), c.p0.clone(), c.mi, c.csr);
+    let (g, vw, p0, mi, csr, unsigned) = (c.g.clone(), c.vw.clone(), c.p0.clone(), c.mi, c.csr, c.unsigned);
     let res = guarded(c.threads, Duration::from_secs(30), move || {
         let mut p = p0;
-        let md = if csr {
+        let md = if unsigned {
+            let uw: Vec<u64> = vw.iter().map(|x| *x as u64).collect();
+            coupe::ArcSwap { max_imbalance: mi }.partition(&mut p, (&g, &uw[..])).unwrap()
+        } else if csr {
             let m = g.to_csr();
             coupe::ArcSwap { max_imbalance: mi }.partition(&mut p, (m.view(), &vw[..])).unwrap()
         } else {
@@ -611,6 +620,22 @@ fn main() {
     let (mut hangs, mut panics, mut late, mut dead, mut events, mut moved_cases) = (0usize, 0usize, 0usize, 0usize, 0usize, 0usize);
     let (mut rerun, mut rerun_diff, mut multi_pass, mut raced_cases, mut locked_cases, mut balance_cases) =
         (0usize, 0usize, 0usize, 0usize, 0usize, 0usize);
+    // The unsigned-weights stream exhibits a known finding (the subtraction `max_part_weight - pw`
+    // underflows for a part above the cap); it runs when known_findings.json (never written at
+    // run time) has an open entry of that class, or when VERIF_C05_UNSIGNED=1.
+    let unsigned_stream = std::env::var("VERIF_C05_UNSIGNED").map(|v| v == "1").unwrap_or(false)
+        || std::fs::read_to_string(format!("{}/../../../known_findings.json", a.out))
+            .map(|t| {
+                t.lines().any(|l| l.contains(KF_UNSIGNED) && l.contains("\"open\""))
+                    || (t.contains(KF_UNSIGNED) && {
+                        // entry spread over several lines
+                        let i = t.find(KF_UNSIGNED).unwrap();
+                        let lo = t[..i].rfind('{').unwrap_or(0);
+                        let hi = t[i..].find('}').map(|x| x + i).unwrap_or(t.len());
+                        t[lo..hi].contains("\"open\"")
+                    })
+            })
+            .unwrap_or(false);
     // plan: systematic sweeps over preemption points first, random cases after
     let thorough = a.tier == "thorough";
     let mut sweep: Vec<(usize, Vec<usize>)> = Vec::new(); // (base, preemption points)
@@ -655,10 +680,35 @@ fn main() {
                 policy: Policy::Preempt(pts.clone()),
                 sseed: 1,
                 csr: false,
+                unsigned: false,
             }
         } else {
-            gen_case(&mut r)
+            let mut c = gen_case(&mut r);
+            if unsigned_stream && idx % 20 == 19 {
+                // known-finding stream: unsigned weights, a tight cap, an unbalanced input
+                c.unsigned = true;
+                c.csr = false;
+                c.mi = Some(*r.pick(&[0.0, 0.05, 0.25]));
+                let k = 1 + c.p0.iter().max().unwrap();
+                if c.p0.len() >= 3 {
+                    for i in 0..c.p0.len() - 1 {
+                        c.p0[i] = 0;
+                    }
+                    let last = c.p0.len() - 1;
+                    c.p0[last] = (k - 1).max(1);
+                }
+                for w in c.vw.iter_mut() {
+                    *w = (*w).max(1);
+                }
+                c.family = format!("unsigned_{}", c.family);
+            }
+            c
         };
+        if let Some(o) = a.only {
+            if o != idx {
+                continue;
+            }
+        }
         let o = run_case(&c);
         late += o.late;
         dead += o.dead;
@@ -738,7 +788,8 @@ fn main() {
             md_coq
         );
         let json = format!(
-            "{{\"n\":{},\"rows\":{},\"vertex_weights\":{},\"p0\":{},\"threads\":{},\"max_imbalance\":{},\"topology\":\"{}\",\"policy\":\"{:?}\",\"schedule_seed\":{},\"passes\":{},\"choices\":{},\"events\":{},\"trace_enc\":{},\"impl\":{}}}",
+            "{{{}\"n\":{},\"rows\":{},\"vertex_weights\":{},\"p0\":{},\"threads\":{},\"max_imbalance\":{},\"topology\":\"{}\",\"policy\":\"{:?}\",\"schedule_seed\":{},\"passes\":{},\"choices\":{},\"events\":{},\"trace_enc\":{},\"impl\":{}}}",
+            if c.unsigned { format!("\"kf\":\"{}\",\"weight_type\":\"u64\",", KF_UNSIGNED) } else { "\"weight_type\":\"i64\",".to_string() },
             n,
             json_rows(&c.g),
             json_i64s(&c.vw),
